@@ -28,6 +28,19 @@
 //                                                 pass (l2, b2) = the parameter is returned unchanged
 //                rs                              result ts: the terminal is a REF-producing selector exposed as a plain
 //                                                 result; channels pick (0 = lhs, else rhs), lhs, rhs; style node only
+//                P<tree>@<view>[,<view>[,<view>]] ONE structured parameter whose outer argument is ASSEMBLED, to any depth of
+//                                                 the schema vocabulary k_path_sigs, from separate sources (to_tsl / to_tsb of
+//                                                 to_tsl / to_tsb ..):  tree := s | l[tree..] | b[tree..] | L[tree..] | B[tree..]
+//                                                 s = a scalar writer, l / b = a TSL / TSB assembled structurally from its
+//                                                 children, L / B = ONE peered writer node with that (structured) output (its
+//                                                 descendants are written in lower case: schema only).  One history column per
+//                                                 scalar leaf, depth-first.  The body consumes 1-3 views of the parameter:
+//                                                 view := w (the whole parameter) | i[.j[.k]] (tsl_element / field projections);
+//                                                 a view is a scalar leaf or an inner structure consumed WHOLE by the body node;
+//                                                 the body's input channels are the leaves of the views in order (gate: the
+//                                                 first view).  Allowed view lists: 1-3 scalars | one structure l[ss] b[ss]
+//                                                 l[sss] or w | l[ss] / b[ss] and one scalar in either order.  result l3, style
+//                                                 node only.  fields of the bundles are f0 f1 f2 (positional)
 //        style : node   result = the output of one body node (node-owned structure)
 //                sink   as node, after a (gated) sink on the first argument (the terminal is not child node 0)
 //                proj   the body node's output is TSB{h, r:R}; the sub-graph returns the field r (non-empty source path)
@@ -107,7 +120,69 @@ namespace
         if (in.valid()) { v.push_back(pv(p, in.value())); }
     }
 
-    template <typename R> struct Shape;
+    // generic structure of a schema: children by position (TSL elements / TSB fields), scalar leaves depth-first
+    template <typename T> struct Kids { static constexpr std::size_t n = 0; static constexpr char kind = 's'; };
+    template <typename E, auto N> struct Kids<TSL<E, N>>
+    {
+        static constexpr std::size_t n = static_cast<std::size_t>(N);
+        static constexpr char        kind = 'l';
+        template <std::size_t> using at = E;
+    };
+    template <typename... F> struct Kids<UnNamedTSB<F...>>
+    {
+        static constexpr std::size_t n = sizeof...(F);
+        static constexpr char        kind = 'b';
+        template <std::size_t I> using at = typename std::tuple_element_t<I, std::tuple<F...>>::schema;
+    };
+    template <typename T> constexpr int leaf_count()
+    {
+        if constexpr (Kids<T>::n == 0) { return 1; }
+        else
+        {
+            return []<std::size_t... I>(std::index_sequence<I...>) {
+                return (0 + ... + leaf_count<typename Kids<T>::template at<I>>());
+            }(std::make_index_sequence<Kids<T>::n>{});
+        }
+    }
+    // the schema written in the tree syntax of the P<tree> argument form (lower case)
+    template <typename T> std::string sig_of()
+    {
+        if constexpr (Kids<T>::n == 0) { return "s"; }
+        else
+        {
+            std::string s(1, Kids<T>::kind);
+            s += "[";
+            [&]<std::size_t... I>(std::index_sequence<I...>) { ((s += sig_of<typename Kids<T>::template at<I>>()), ...); }(
+                std::make_index_sequence<Kids<T>::n>{});
+            return s + "]";
+        }
+    }
+    // set scalar leaf j (depth-first) of an output of schema T
+    template <typename T, typename O> void set_leaf(const O &out, int j, Int x)
+    {
+        if constexpr (Kids<T>::n == 0) { out.set(x); }
+        else
+        {
+            [&]<std::size_t... I>(std::index_sequence<I...>) {
+                int off = 0;
+                (
+                    [&] {
+                        using K         = typename Kids<T>::template at<I>;
+                        constexpr int n = leaf_count<K>();
+                        if (j >= off && j < off + n) { set_leaf<K>(Out<K>{out.at(I), out.evaluation_time()}, j - off, x); }
+                        off += n;
+                    }(),
+                    ...);
+            }(std::make_index_sequence<Kids<T>::n>{});
+        }
+    }
+
+    // the result shapes are specialised below; any other schema (structured ARGUMENTS) is written leaf by leaf
+    template <typename R> struct Shape
+    {
+        static constexpr int leaves = leaf_count<R>();
+        template <typename O> static void set(const O &out, int i, Int v) { set_leaf<R>(out, i, v); }
+    };
     template <> struct Shape<R_ts>
     {
         static constexpr int leaves = 1;
@@ -210,16 +285,27 @@ namespace
         int               bch   = 0;    // input channels of the body (cs: two body inputs read the one column)
     };
     Def                                                g_def;
-    std::vector<std::array<std::optional<Int>, 3>>     g_hist;   // per cycle, per channel
+    constexpr int                                      k_maxch = 8;   // history columns / body input channels
+    std::vector<std::array<std::optional<Int>, k_maxch>> g_hist;   // per cycle, per channel
     constexpr std::int64_t                             k_start = 1;
 
     // per-run state of the body nodes (reset before every run): slot 0 = the one body node, slots 0..3 = the per-leaf nodes
     struct St { bool evaluated = false; std::int64_t acc = 0; std::int64_t count[4] = {0, 0, 0, 0}; };
     St g_st[4];
 
-    struct Chans { int n = 0; bool tick[3] = {false, false, false}; bool valid[3] = {false, false, false}; Int val[3] = {0, 0, 0}; };
+    struct Chans { int n = 0; bool tick[k_maxch] = {}; bool valid[k_maxch] = {}; Int val[k_maxch] = {}; };
 
-    template <typename A> struct Chan;
+    // any other schema: the scalar leaves depth-first
+    template <typename A> struct Chan
+    {
+        static constexpr int n = leaf_count<A>();
+        template <typename I> static void read(const I &in, Chans &c)
+        {
+            [&]<std::size_t... K>(std::index_sequence<K...>) {
+                (Chan<typename Kids<A>::template at<K>>::read(In<"", typename Kids<A>::template at<K>>{in.at(K)}, c), ...);
+            }(std::make_index_sequence<Kids<A>::n>{});
+        }
+    };
     template <> struct Chan<L>
     {
         static constexpr int n = 1;
@@ -973,6 +1059,240 @@ namespace
         }
     };
 
+    // ------------------------------------------------------------------ ONE structured parameter, assembled to any depth
+    // args = P<tree>@<views>: the outer argument is built from separate sources exactly as the tree says (to_tsl / to_tsb
+    // of to_tsl / to_tsb .. over scalar writers and peered structured writers); the body projects its views out of the
+    // parameter (tsl_element_ref / tsb_field_ref) and feeds them to ONE rule body node.
+    struct PSpec
+    {
+        char               kind   = 's';     // 's' scalar leaf, 'l' TSL, 'b' TSB
+        bool               peered = false;   // one writer node with this output (always true for 's')
+        std::vector<PSpec> kids;
+        int                leaves = 1;
+        std::string        sig;              // the schema in lower case
+    };
+    struct PDef
+    {
+        PSpec                                 tree;
+        std::vector<std::vector<std::size_t>> views;      // projection path of every view
+        std::vector<std::string>              view_sigs;  // schema of every view
+    };
+    PDef g_pdef;
+
+    bool parse_ptree(const std::string &t, std::size_t &i, bool in_peered, PSpec &out)
+    {
+        if (i >= t.size()) { return false; }
+        const char c = t[i++];
+        if (c == 's') { out = PSpec{'s', true, {}, 1, "s"}; return true; }
+        const char lc = static_cast<char>(c | 0x20);
+        if ((lc != 'l' && lc != 'b') || (in_peered && c != lc)) { return false; }
+        out        = PSpec{};
+        out.kind   = lc;
+        out.peered = in_peered || c != lc;
+        if (i >= t.size() || t[i++] != '[') { return false; }
+        out.leaves = 0;
+        out.sig    = std::string(1, lc) + "[";
+        while (i < t.size() && t[i] != ']')
+        {
+            PSpec k;
+            if (!parse_ptree(t, i, out.peered, k)) { return false; }
+            out.leaves += k.leaves;
+            out.sig += k.sig;
+            out.kids.push_back(std::move(k));
+        }
+        if (i >= t.size() || out.kids.empty() || out.kids.size() > 3) { return false; }
+        ++i;
+        out.sig += "]";
+        return true;
+    }
+    const PSpec *pspec_at(const PSpec &root, const std::vector<std::size_t> &path)
+    {
+        const PSpec *cur = &root;
+        for (auto k : path)
+        {
+            if (k >= cur->kids.size()) { return nullptr; }
+            cur = &cur->kids[k];
+        }
+        return cur;
+    }
+    // the schema vocabulary of the structured parameter (every entry instantiates the wiring templates once)
+    using P_l1   = TSL<L, 1>;
+    using P_ll   = TSL<R_l2, 2>;                                             // {{a,b},{c,d}}
+    using P_bls  = UnNamedTSB<Field<"f0", R_l2>, Field<"f1", L>>;            // {{a,b},c}
+    using P_bsl  = UnNamedTSB<Field<"f0", L>, Field<"f1", R_l2>>;            // {a,{b,c}}
+    using P_lb3  = TSL<R_b2, 3>;                                             // a list of three bundles
+    using P_blbs = UnNamedTSB<Field<"f0", R_l3>, Field<"f1", R_b2>, Field<"f2", L>>;
+    using P_lll  = TSL<P_ll, 2>;                                             // depth 3, eight leaves
+    using P_b3d  = UnNamedTSB<Field<"f0", TSL<R_b2, 2>>, Field<"f1", L>, Field<"f2", R_l3>>;   // depth 3, mixed
+    using P_b1d  = UnNamedTSB<Field<"f0", UnNamedTSB<Field<"f0", R_l3>>>, Field<"f1", TSL<P_l1, 2>>>;   // depth 3 with width-1 levels
+    const std::vector<std::string> k_path_sigs{"l[sss]", "b[ss]", "l[l[ss]l[ss]]", "b[l[ss]s]", "b[sl[ss]]", "l[b[ss]b[ss]b[ss]]",
+                                               "b[l[sss]b[ss]s]", "l[l[l[ss]l[ss]]l[l[ss]l[ss]]]", "b[l[b[ss]b[ss]]sl[sss]]",
+                                               "b[b[l[sss]]l[l[s]l[s]]]"};
+
+    // which view lists the body can consume (one rule body node): -> 0 not allowed
+    enum PForm { PF_NONE = 0, PF_S1, PF_S2, PF_S3, PF_L2, PF_B2, PF_L3, PF_W, PF_L2S, PF_SL2, PF_B2S, PF_SB2 };
+    PForm pform(const PDef &d)
+    {
+        const auto &v = d.view_sigs;
+        const auto  all_s = [&] { return std::all_of(v.begin(), v.end(), [](const std::string &x) { return x == "s"; }); };
+        if (v.empty() || v.size() > 3) { return PF_NONE; }
+        if (all_s()) { return v.size() == 1 ? PF_S1 : v.size() == 2 ? PF_S2 : PF_S3; }
+        if (v.size() == 1)
+        {
+            if (v[0] == "l[ss]") { return PF_L2; }
+            if (v[0] == "b[ss]") { return PF_B2; }
+            if (v[0] == "l[sss]") { return PF_L3; }
+            return d.views[0].empty() ? PF_W : PF_NONE;
+        }
+        if (v.size() == 2)
+        {
+            if (v[0] == "l[ss]" && v[1] == "s") { return PF_L2S; }
+            if (v[0] == "s" && v[1] == "l[ss]") { return PF_SL2; }
+            if (v[0] == "b[ss]" && v[1] == "s") { return PF_B2S; }
+            if (v[0] == "s" && v[1] == "b[ss]") { return PF_SB2; }
+        }
+        return PF_NONE;
+    }
+    bool parse_pargs(const std::string &a, PDef &d)
+    {
+        const auto at = a.find('@');
+        if (a.size() < 4 || a[0] != 'P' || at == std::string::npos) { return false; }
+        const std::string tree = a.substr(1, at - 1);
+        std::size_t       i    = 0;
+        if (!parse_ptree(tree, i, false, d.tree) || i != tree.size()) { return false; }
+        if (std::find(k_path_sigs.begin(), k_path_sigs.end(), d.tree.sig) == k_path_sigs.end()) { return false; }
+        std::string rest = a.substr(at + 1);
+        while (true)
+        {
+            const auto        c = rest.find(',');
+            const std::string v = rest.substr(0, c);
+            std::vector<std::size_t> path;
+            if (v != "w")
+            {
+                if (v.empty() || v.size() % 2 == 0) { return false; }
+                for (std::size_t k = 0; k < v.size(); ++k)
+                {
+                    if (k % 2 == 0 ? (v[k] < '0' || v[k] > '2') : v[k] != '.') { return false; }
+                    if (k % 2 == 0) { path.push_back(static_cast<std::size_t>(v[k] - '0')); }
+                }
+            }
+            const PSpec *sub = pspec_at(d.tree, path);
+            if (sub == nullptr) { return false; }
+            d.views.push_back(path);
+            d.view_sigs.push_back(sub->sig);
+            if (c == std::string::npos) { break; }
+            rest = rest.substr(c + 1);
+        }
+        return pform(d) != PF_NONE;
+    }
+    int pdef_body_chans(const PDef &d)
+    {
+        int n = 0;
+        for (const auto &p : d.views) { n += pspec_at(d.tree, p)->leaves; }
+        return n;
+    }
+
+    // the outer argument: built bottom-up with the public API (stdlib::to_tsl / to_tsb over the children's ports)
+    template <typename T> Port<T> build_source(Wiring &w, const PSpec &spec, int &base)
+    {
+        if constexpr (Kids<T>::n == 0)
+        {
+            auto p = wire<Writer<T>>(w, Int{base}, Int{1}).template as<T>();
+            base += 1;
+            return p;
+        }
+        else
+        {
+            if (spec.peered)
+            {
+                auto p = wire<Writer<T>>(w, Int{base}, Int{leaf_count<T>()}).template as<T>();
+                base += leaf_count<T>();
+                return p;
+            }
+            return [&]<std::size_t... I>(std::index_sequence<I...>) {
+                // braced initialisation: the children are built left to right (history columns in depth-first order)
+                std::tuple<Port<typename Kids<T>::template at<I>>...> kids{
+                    build_source<typename Kids<T>::template at<I>>(w, spec.kids[I], base)...};
+                if constexpr (Kids<T>::kind == 'l') { return stdlib::to_tsl<T>(w, std::get<I>(kids)...).template as<T>(); }
+                else { return stdlib::to_tsb<T>(w, std::get<I>(kids)...); }
+            }(std::make_index_sequence<Kids<T>::n>{});
+        }
+    }
+
+    // projection of one view out of the parameter (as tsl_element / field do it)
+    WiringPortRef project_view(const WiringPortRef &root, const PSpec &tree, const std::vector<std::size_t> &path)
+    {
+        WiringPortRef ref = root;
+        const PSpec  *cur = &tree;
+        for (auto k : path)
+        {
+            const auto *meta = cur->kind == 'l' ? ref.schema->element_ts() : ref.schema->fields()[k].type;
+            ref = cur->kind == 'l' ? subgraph_wiring_detail::tsl_element_ref(ref, k, meta) : subgraph_wiring_detail::tsb_field_ref(ref, k, meta);
+            cur = &cur->kids[k];
+        }
+        return ref;
+    }
+    template <typename A> struct GP
+    {
+        static constexpr auto name = "nestshape_gp";
+        static Port<R_l3>     compose(Wiring &w, Port<A> in, Scalar<"style", Int>)
+        {
+            using R = R_l3;
+            std::vector<WiringPortRef> v;
+            for (const auto &p : g_pdef.views) { v.push_back(project_view(in.erased(), g_pdef.tree, p)); }
+            const auto s  = [&](std::size_t i) { return Port<L>{w, v[i]}; };
+            const auto l2 = [&](std::size_t i) { return Port<R_l2>{w, v[i]}; };
+            const auto b2 = [&](std::size_t i) { return Port<R_b2>{w, v[i]}; };
+            switch (pform(g_pdef))
+            {
+                case PF_S1: return wire<Body1<R, L>>(w, s(0));
+                case PF_S2: return wire<Body2<R, L, L>>(w, s(0), s(1));
+                case PF_S3: return wire<Body3<R, L, L, L>>(w, s(0), s(1), s(2));
+                case PF_L2: return wire<Body1<R, R_l2>>(w, l2(0));
+                case PF_B2: return wire<Body1<R, R_b2>>(w, b2(0));
+                case PF_L3: return wire<Body1<R, R_l3>>(w, Port<R_l3>{w, v[0]});
+                case PF_W: return wire<Body1<R, A>>(w, in);
+                case PF_L2S: return wire<Body2<R, R_l2, L>>(w, l2(0), s(1));
+                case PF_SL2: return wire<Body2<R, L, R_l2>>(w, s(0), l2(1));
+                case PF_B2S: return wire<Body2<R, R_b2, L>>(w, b2(0), s(1));
+                case PF_SB2: return wire<Body2<R, L, R_b2>>(w, s(0), b2(1));
+                default: break;
+            }
+            throw std::logic_error("view list not supported");
+        }
+    };
+    template <typename A> struct DeepP
+    {
+        static constexpr auto name = "nestshape_deepp";
+        static Port<R_l3>     compose(Wiring &w, Port<A> in, Scalar<"style", Int> style, Scalar<"depth", Int> depth)
+        {
+            if (depth.value() <= 0) { return wire<GP<A>>(w, in, Int{style.value()}); }
+            return nested_<DeepP<A>>(w, in, Int{style.value()}, Int{depth.value() - 1});
+        }
+    };
+    template <typename A> struct RunnerP
+    {
+        static bool run(Mode mode, Int style)
+        {
+            if (sig_of<A>() != g_pdef.tree.sig) { return false; }
+            Wiring    w{WiringKind::TopLevel, WiringOptions{}};
+            int       base = 0;
+            Port<A>   arg  = build_source<A>(w, g_pdef.tree, base);
+            const Int depth{mode == M_NW ? 2 : static_cast<std::int64_t>(mode)};
+            Port<R_l3> out = mode == M_INL ? wire<GP<A>>(w, arg, style) : wire<DeepP<A>>(w, arg, style, depth);
+            wire<Recorder<R_l3>>(w, out);
+            execute(std::move(w));
+            return true;
+        }
+    };
+    bool run_path(Mode mode, Int style)
+    {
+        return RunnerP<R_l3>::run(mode, style) || RunnerP<R_b2>::run(mode, style) || RunnerP<P_ll>::run(mode, style) ||
+               RunnerP<P_bls>::run(mode, style) || RunnerP<P_bsl>::run(mode, style) || RunnerP<P_lb3>::run(mode, style) ||
+               RunnerP<P_blbs>::run(mode, style) || RunnerP<P_lll>::run(mode, style) || RunnerP<P_b3d>::run(mode, style) ||
+               RunnerP<P_b1d>::run(mode, style);
+    }
+
     // the vocabulary of (result, arguments) pairs (kept small: every pair instantiates the wiring templates)
     const std::set<std::string> k_pairs{"ts:s1", "ts:ab", "b2:s2", "b2:ab", "b2:bs", "b3:s3", "b3:s1", "b4:s2", "b4:al", "l2:s1", "l2:al",
                                         "l3:s2", "l3:bs", "l4:s1", "l4:s3", "bl:s2", "bl:ab", "lb:s2", "lb:al",
@@ -988,6 +1308,8 @@ namespace
     bool run_def(Mode mode, Int style)
     {
         const std::string p = g_def.res + ":" + g_def.args;
+        if (g_def.args[0] == 'P') { return run_path(mode, style); }
+#ifndef HGV_NESTSHAPE_PATH_ONLY   // (development aid: compile the P<tree> kind alone)
         if (g_def.args[0] == 'c' || g_def.args[0] == 'x')
         {
             if (g_def.res == "ts") { RunnerC0<R_ts>::run(g_def.args, mode, style); }
@@ -1032,6 +1354,9 @@ namespace
         else if (p == "lb:al") { Runner<R_lb, R_l2>::run(mode, style); }
         else { return false; }
         return true;
+#else
+        return false;
+#endif
     }
 
     // ------------------------------------------------------------------ parsing
@@ -1061,7 +1386,7 @@ namespace
         r.trig = s[i++];
         if (r.trig == 'K' || r.trig == 'O')
         {
-            if (i >= s.size() || s[i] < '0' || s[i] > '2') { return false; }
+            if (i >= s.size() || s[i] < '0' || s[i] > '7') { return false; }
             r.tj = s[i++] - '0';
             if (r.tj >= chans) { return false; }
         }
@@ -1070,7 +1395,7 @@ namespace
         r.val = s[i++];
         if (r.val == 'x')
         {
-            if (i + 1 != s.size() || s[i] < '0' || s[i] > '2') { return false; }
+            if (i + 1 != s.size() || s[i] < '0' || s[i] > '7') { return false; }
             r.vj = s[i] - '0';
             return r.vj < chans;
         }
@@ -1098,6 +1423,23 @@ namespace
         if (ws.size() < 6) { return false; }
         d.res = ws[1]; d.args = ws[2]; d.style = ws[3];
         const int nl = leaves_of(d.res);
+        if (!d.args.empty() && d.args[0] == 'P')
+        {
+            // one structured parameter assembled to any depth: result l3, one rule body node
+            PDef pd;
+            if (d.res != "l3" || d.style != "node" || !parse_pargs(d.args, pd)) { return false; }
+            d.chans = pd.tree.leaves;
+            d.bch   = pdef_body_chans(pd);
+            if (d.chans > k_maxch || d.bch > k_maxch || !parse_timer(ws[4], d) || static_cast<int>(ws.size()) != 5 + nl) { return false; }
+            for (int i = 0; i < nl; ++i)
+            {
+                Rule r;
+                if (!parse_rule(ws[static_cast<std::size_t>(5 + i)], d.bch, r)) { return false; }
+                d.rules.push_back(r);
+            }
+            g_pdef = pd;
+            return true;
+        }
         d.chans      = chans_of(d.args);
         if (nl == 0 || d.chans == 0 || !k_pairs.count(d.res + ":" + d.args)) { return false; }
         static const std::set<std::string> styles{"node", "sink", "proj", "pass", "comp"};
@@ -1153,7 +1495,7 @@ int main()
         }
         else if (ws[0] == "c" && have_def && static_cast<int>(ws.size()) == 1 + g_def.chans && g_hist.size() < 64)
         {
-            std::array<std::optional<Int>, 3> row{};
+            std::array<std::optional<Int>, k_maxch> row{};
             bool                              ok = true;
             for (int j = 0; j < g_def.chans; ++j)
             {
